@@ -2,16 +2,9 @@
 // same law. See NOTES.md.
 package main
 
-import (
-	"runtime"
-
-	"gonum.org/v1/gonum/internal/verif/vlib"
-)
+import "gonum.org/v1/gonum/internal/verif/vlib"
 
 func main() {
-	// Case bodies are single-threaded and allocate a lot (one rand.Rand per Rand call); with 16
-	// shard processes the default GOMAXPROCS = 16 only makes the garbage collectors fight.
-	runtime.GOMAXPROCS(2)
 	groups := []vlib.Group{
 		{Name: "uv-fit", Gen: genUVFit},
 		{Name: "mv", Gen: genMV},
